@@ -511,12 +511,13 @@ Section Theorems.
     pat_atoms p = PatOk a ->
     exists r, pexp_eval e (mkP name i (PRepl false orig w)) = OOk (r, None) /\
       ((exists pre mid post, s = pre ++ mid ++ post /\ pmatch (toks a) mid /\ r = pre ++ literal_of w ++ post /\
-          forall pre' mid' post', s = pre' ++ mid' ++ post' -> pmatch (toks a) mid' -> (length pre <= length pre')%nat)
+          (forall pre' mid' post', s = pre' ++ mid' ++ post' -> pmatch (toks a) mid' -> (length pre <= length pre')%nat) /\
+          (forall mid' post', mid ++ post = mid' ++ post' -> pmatch (toks a) mid' -> (length mid' <= length mid)%nat))
        \/ (r = s /\ forall pre mid post, s = pre ++ mid ++ post -> ~ pmatch (toks a) mid)).
   Proof.
     intros e name i orig w s p a Hn Hl Hv Hsa Hne Hp. eexists. split.
     - apply (replace_param_eval e name i orig w s ANone p a Hn Hl Hv Hsa); [intros _; exact Hne|exact Hp].
-    - apply replace_first_sound.
+    - apply replace_first_correct.
   Qed.
 
   (* an unset parameter expands to nothing whatever the pattern (repaired) *)
